@@ -23,8 +23,9 @@ StepShape(e) == /\ e.ev = "shape" /\ UNCHANGED cur
                                "contains_transcription", [k |-> cur.k, bbox |-> e.bbox])
 \* a library call of this case panicked: the property promises a result for every input of its domain
 StepPanic(e) == e.ev = "panic" /\ UNCHANGED cur /\ Report(e.case, {"library_call_panicked"}, [msg |-> e.msg, loc |-> e.loc])
+StepBig(e) == e.ev = "big" /\ UNCHANGED cur /\ Report(e.case, BigFails(e), [kind |-> e.kind, bbox |-> e.bbox, probes |-> e.probes])
 Next == /\ l <= NRec
-        /\ LET e == Rec[l] IN StepCase(e) \/ StepShape(e) \/ StepPanic(e)
+        /\ LET e == Rec[l] IN StepCase(e) \/ StepShape(e) \/ StepBig(e) \/ StepPanic(e)
         /\ l' = l + 1
 Spec == Init /\ [][Next]_<<l, cur>>
 Done == IF TLCGet("stats").diameter = NRec + 1
